@@ -13,7 +13,7 @@ func (sc *Scenario) Clone() *Scenario {
 	return &c
 }
 
-var Alphabet = []string{"a", "b%", "error", "default", " ", "A "} // (action names are free text: percent signs and blanks included, and "error" is a name like any other)
+var Alphabet = []string{"a", "A ", "error", "default", "b%", " "} // (action names are free text: percent signs and blanks included, and "error" is a name like any other)
 
 // GenOpts bounds the random generator.
 type GenOpts struct {
